@@ -53,7 +53,7 @@ pub fn gen(rng: &mut Rng, n: usize, out: &mut Vec<String>) {
         }
     }
     // malformed response values: outside C19's domain, agreement only
-    for w in ["cresp paged 3000", "cresp paged 0400", "cresp syncstate 30030a0109", "cresp passmod 3000", "cresp syncdone 30020500", "cresp whoami ff"] { out.push(w.into()); }
+    for w in ["cresp paged 3000", "cresp paged 0400", "cresp syncstate 30030a0109", "cresp passmod 3000", "cresp passmod-raw 3000", "cresp passmod-raw 30038001ff", "cresp passmod-raw 30058003733363", "cresp starttxn-raw 0000018ffffe8001", "cresp starttxn-raw 74786e31", "cresp starttxn-raw ff", "cresp syncdone 30020500", "cresp whoami ff"] { out.push(w.into()); }
 }
 
 fn show_raw(r: &RawControl) -> String { format!("{}/{}/{}", hex(r.ctype.as_bytes()), if r.crit { 1 } else { 0 }, opt_hex(&r.val)) }
@@ -141,6 +141,16 @@ fn cresp(kind: &str, arg: &str) -> (String, Option<String>) {
             let o = if r.authzid.as_bytes() != &v[..] { Some("authzId differs from the response value".to_string()) } else { None }; (got, o) }
         "starttxn" => { let v = unhex(arg); let e = Exop { name: None, val: Some(v.clone()) }; let r: StartTxnResp = e.parse(); let got = format!("ok {}", hex(r.txn_id.as_bytes()));
             let o = if r.txn_id.as_bytes() != &v[..] { Some("transaction id differs from the response value".to_string()) } else { None }; (got, o) }
+        // the identifier is an opaque OCTET STRING (RFC 5805): any octets are well-formed; the struct holds a String (known finding F40)
+        "starttxn-raw" => { let v = unhex(arg); let v2 = v.clone(); let r = guarded(move || { let e = Exop { name: None, val: Some(v2) }; let r: StartTxnResp = e.parse(); r.txn_id.into_bytes() });
+            match r { Some(id) => (format!("ok {}", hex(&id)), if id != v { Some("transaction id differs from the response value".to_string()) } else { None }),
+                      None => ("panic".into(), Some(format!("F40-octets-as-string: StartTxnResp::parse panics on the well-formed transaction identifier {} (an OCTET STRING that is not UTF-8)", hex(&v)))) } }
+        "passmod-raw" => { let v = unhex(arg); let v2 = v.clone(); let r = guarded(move || { let e = Exop { name: None, val: Some(v2) }; let r: PasswordModifyResp = e.parse(); r.gen_pass.into_bytes() });
+            let want = own(&v).and_then(|t| { let k = kids(&t)?.clone(); match k.first() { None => Some(vec![]), Some(g) => { if g.class != TagClass::Context || g.id != 0 { return None; } prim(g).cloned() } } });
+            match (r, want) { (Some(g), Some(w)) => (format!("ok {}", hex(&g)), if g != w { Some(format!("RFC 3062 response holds genPasswd {} but the parser returned {}", hex(&w), hex(&g))) } else { None }),
+                      (Some(g), None) => (format!("ok {}", hex(&g)), None),
+                      (None, Some(w)) => ("panic".into(), Some(if std::str::from_utf8(&w).is_ok() { format!("PasswordModifyResp::parse panics on the well-formed response value {}", hex(&v)) } else { format!("F40-octets-as-string: PasswordModifyResp::parse panics on the well-formed response value {} (genPasswd is an OCTET STRING that is not UTF-8)", hex(&v)) })),
+                      (None, None) => ("panic".into(), None) } }
         "passmod" => { let v = unhex(arg); let e = Exop { name: None, val: Some(v.clone()) }; let r: PasswordModifyResp = e.parse(); let got = format!("ok {}", hex(r.gen_pass.as_bytes()));
             let want = own(&v).and_then(|t| { let k = kids(&t)?.clone(); let g = k.first()?; if g.class != TagClass::Context || g.id != 0 { return None; } Some(format!("ok {}", hex(prim(g)?))) });
             let o = match want { Some(w) if w != got => Some(format!("RFC 3062 response reads {} but the parser returned {}", w, got)), _ => None }; (got, o) }
